@@ -748,7 +748,8 @@ def call_mixture(model, y, init, sal, n, opt, emb=None):
     """fit(initialization=init, iterations=n) of the real mixture trainer `model`; returns the fitted object"""
     from pb_bss import distribution as dist
     wca = wca_arg(opt['weight_constant_axis'])
-    init = np.array(init, dtype=np.float64)
+    if isinstance(init, np.ndarray) or isinstance(init, (list, tuple)):
+        init = np.array(init, dtype=np.float64)         # otherwise: a fitted model object (continued fit, cACGMM)
     y = np.array(y)
     sal = None if sal is None else np.array(sal, dtype=np.float64)
     if model == 'gmm':
